@@ -484,12 +484,12 @@ TWIN_LINE_GAPS = ["\n", " \n", "\n  ", "\n\n"]
 TWIN_USE = ["size({lit})", "{lit} == s", "{lit} + s", "{lit}.contains(sep)", "[{lit}, s][0]", "{{{lit}: 1}}[s]", "s.startsWith({lit})"]
 
 
-def twin_texts(rng: random.Random):
+def twin_texts(rng: random.Random, gap_only: bool = False):
     """two DIFFERENT expression texts that a plausible normalisation of the source text (folding or stripping white space,
     dropping comments, folding case) maps to the same key, although they mean different things; with bindings that tell
     them apart"""
     r = rng.random()
-    if r < 0.6:                                     # white space inside a string / bytes literal is content
+    if r < 0.6 or gap_only:                         # white space inside a string / bytes literal is content
         q = rng.choice(["'", '"', "'''", '"""'])
         gaps = TWIN_GAPS + (TWIN_LINE_GAPS if len(q) == 3 else [])
         g1, g2 = rng.sample(gaps, 2)
@@ -537,9 +537,13 @@ def twin_history(rng: random.Random):
     nenv = 1 if lazy else len(kinds)
     n = 0
     evs = []
-    for _ in range(2):
-        a, b, binds = twin_texts(rng)
-        for text, e in ((a, rng.randrange(nenv)), (b, None)):
+    same = [i for i, k in enumerate(kinds) if k == k0]
+    for pair in range(2):
+        # the first pair: white space inside a literal, both texts under the same runner class
+        a, b, binds = twin_texts(rng, gap_only=pair == 0)
+        for text, e in ((a, rng.choice([i for i in same if i < nenv]) if pair == 0 else rng.randrange(nenv)), (b, None)):
+            if e is None and pair == 0 and not (lazy and nenv < len(kinds) and kinds[nenv] == k0 and rng.random() < 0.6):
+                e = rng.choice([i for i in same if i < nenv])
             if e is None:
                 if lazy and nenv < len(kinds) and rng.random() < 0.6:
                     ops.append(["E", kinds[nenv], None, []])
